@@ -495,7 +495,29 @@ fn cli_files(rep: &Report, n: usize, seed: u64) {
         let (family, src): (&str, Vec<u8>) = if core && i < EDGE_TEXTS.len() {
             ("edge", EDGE_TEXTS[i].as_bytes().to_vec())
         } else {
-            match rng.below(6) {
+            match rng.below(7) {
+                6 => {
+                    // long files (hundreds to tens of thousands of lines) that stop in the middle of a construct, with and
+                    // without a final newline: the diagnostic has to find its line at the far end of a long line table
+                    let n = *rng.pick(&[257usize, 1025, 1500, 4097, 65537]);
+                    let mut t = String::with_capacity(n * 8);
+                    for k in 0..n {
+                        t.push_str(match k % 5 { 0 => "; filler\n", 1 => "\n", _ => "" });
+                    }
+                    let lines = t.matches('\n').count();
+                    for _ in lines..n {
+                        t.push('\n');
+                    }
+                    t.push_str(&valid_program(&mut rng));
+                    if !t.ends_with('\n') {
+                        t.push('\n');
+                    }
+                    t.push_str(*rng.pick(&["mov ax,", "add bx", "jmp", "def f {", "db [1,", "macro m(a) ->", "mov word [bx", "print mem 1 ->", "mov ax, 1 )", "call", "int", "mov al, byte"]));
+                    if rng.chance(1, 2) {
+                        t.push('\n');
+                    }
+                    ("long-file-truncated", t.into_bytes())
+                }
                 0 => ("token-soup", token_soup(&mut rng).into_bytes()),
                 1 => {
                     let v = valid_program(&mut rng);
